@@ -384,9 +384,24 @@ DICT_ROOTS = {
 }
 
 
+XML_DECLS = {
+    # spellings of the XML declaration other serialisers write
+    "single-quotes": "<?xml version='1.0' encoding='UTF-8'?>",
+    "single-quotes-lower": "<?xml version='1.0' encoding='utf-8'?>",
+    "no-encoding": '<?xml version="1.0"?>',
+    "standalone": '<?xml version="1.0" encoding="UTF-8" standalone="yes"?>',
+    "spaces": '<?xml  version = "1.0"  encoding = "UTF-8" ?>',
+    "none": "",
+}
+
+
 def shape_bytes(shape):
     if shape["kind"] == "dictroot":
         return DICT_ROOTS[shape["depth"]][1].encode()
+    if shape["kind"] == "decl":
+        body = "<section><name>s</name><type>t</type><property><name>p</name><value>1</value>" \
+               "</property></section>"
+        return (XML_DECLS[shape["depth"]] + '\n<odML version="1.1">%s</odML>\n' % body).lstrip("\n").encode()
     if shape["kind"] == "root":
         body = "<section><name>s</name><type>t</type><property><name>p</name><value>1</value>" \
                "</property></section>"
@@ -464,9 +479,40 @@ def run_case(case):
             with open(path, "rb") as fobj:
                 old = fobj.read()
             edit_doc(odml, doc, rng)
+            if case.get("twins"):
+                # sibling names that look alike and are different names (composed / decomposed
+                # spelling, case): all of them valid parts
+                host = doc.sections[0]
+                for nm in ("\u00e4", "a\u0308", "A\u0308"):
+                    if nm not in [s_.name for s_ in doc.sections]:
+                        odml.Section(name=nm, type="t1", parent=doc)
+                    if nm not in [p_.name for p_ in host.properties]:
+                        odml.Property(name=nm, values=[1], parent=host)
             odml.save(doc, path, fmt)
             with open(path, "rb") as fobj:
                 new = fobj.read()
+            stored_ids = sorted(o.id for o in [doc] + list(doc.itersections()) + list(doc.iterproperties()))
+        if not case.get("shape"):
+            # nothing is damaged yet: every part of the stored text is valid, the lenient reader
+            # keeps all of it
+            try:
+                if fmt == "xml":
+                    clean_doc = XMLReader(ignore_errors=True, show_warnings=False).from_string(new)
+                else:
+                    clean_doc = DictReader(show_warnings=False, ignore_errors=True).to_odml(
+                        json.loads(new.decode("utf-8")) if fmt == "json" else yaml.safe_load(new.decode("utf-8")))
+                got_ids = sorted(o.id for o in [clean_doc] + list(clean_doc.itersections()) +
+                                 list(clean_doc.iterproperties()))
+            except Exception as exc:
+                got_ids = "%s: %s" % (type(exc).__name__, exc)
+            if got_ids != stored_ids:
+                lost = [i for i in stored_ids if not isinstance(got_ids, list) or i not in got_ids]
+                res.violation = {"monitor": "read.kept-parts", "step": 0, "op": {"op": "read"},
+                                 "labels": [fmt, "undamaged"], "outcome": ["ret"],
+                                 "message": "the lenient reader does not keep all parts of the undamaged "
+                                            "stored text: %d object(s) missing or %s" % (len(lost), str(got_ids)[:120]),
+                                 "signature": signature("read.kept-parts", "%s:undamaged" % fmt, [])}
+                return res
         faults = case["faults"]
         if faults == "generate":
             frng = streams.get("fault")
@@ -827,6 +873,8 @@ def generate_case(run_seed, tier=None):
             "fmt": rng.choice(["xml", "xml", "json", "yaml"]), "doc_seed": rng.randrange(1 << 30),
             "faults": "generate"}
     r = rng.random()
+    if seeds.Streams(run_seed).get("twins").random() < 0.15:
+        case["twins"] = True
     if r < 0.5:
         case["kinds"] = rng.sample(storage_faults.KINDS, rng.randint(1, 3))   # swarm
     if rng.random() < 0.03:
@@ -835,6 +883,8 @@ def generate_case(run_seed, tier=None):
             {"kind": "root", "depth": rng.choice(sorted(ROOT_SHAPES))}
         case["faults"] = [] if rng.random() < 0.7 else "generate"
         case["kinds"] = ["bitflip", "truncate"]
+        if rng.random() < 0.25:
+            case["shape"] = {"kind": "decl", "depth": rng.choice(sorted(XML_DECLS))}
         if rng.random() < 0.3:
             name = rng.choice(sorted(DICT_ROOTS))
             case["fmt"] = DICT_ROOTS[name][0]
